@@ -984,8 +984,7 @@ class BosonicModes:
             raise ValueError("Cannot apply heterodyne measurement, mode does not exist.")
 
         covmat = self.hbar * np.identity(2) / 2
-        # quadrature values corresponding to the complex amplitude alpha_val
-        vals = np.sqrt(2 * self.hbar) * np.array([np.real(alpha_val), np.imag(alpha_val)])
+        vals = np.array([alpha_val.real, alpha_val.imag])
         self.post_select_generaldyne(covmat, [mode], vals)
 
     def apply_u(self, U):
